@@ -129,6 +129,14 @@ fn gen(g: &mut G) -> Plan {
     } else {
         te
     };
+    // (no draw) a coding before `chunked` with a quoted parameter (an escaped quote, a comma, a blank inside the
+    // quotes): the list ends in `chunked` all the same
+    let te: Vec<String> = if te.len() == 1 && te[0] == "identity, chunked" && n % 3 == 1 {
+        g.probe("transfer-coding-list-with-a-quoted-parameter");
+        vec![["x-pack;note=\"3.5\\\" disk\", chunked", "x-pack;q=\"a b\", chunked", "x-pack;note=\"\\\"\", Chunked", "x-pack;a=\"\\\\\", chunked"][(n / 3) % 4].to_string()]
+    } else {
+        te
+    };
     // (no draw) a coding whose name merely resembles "chunked" is not chunked: with no Content-Length next to
     // it the body runs to the end of the connection, as sent
     let lookalike = te.len() == 1 && te[0].trim_matches(|c| c == ' ' || c == '\t').eq_ignore_ascii_case("chunked") && ncl == 0 && n % 9 == 4;
